@@ -819,3 +819,63 @@ def adt_fields_touched(F, body, adt_suffix, depth=3):
                     go(F.bodies[c.callee], d - 1)
     go(body, depth)
     return out
+
+
+def with_helpers(F, body, depth=1):
+    """The body, its closures, and (to the given depth) the functions of the same module it calls, with their closures: where a
+    rule asks "does this function do X somewhere", X may have been moved into a private helper next to it."""
+    out = []
+    seen = set()
+    mod = body.path.split("::{closure", 1)[0].rsplit("::", 1)[0]
+    mod = mod.rsplit("::", 1)[0] if body.self_adt else mod
+
+    def go(b, d):
+        if b.path in seen:
+            return
+        seen.add(b.path)
+        for x in with_closures(F, b):
+            if x.path not in seen or x is b:
+                out.append(x)
+                seen.add(x.path)
+            if d > 0:
+                for c in x.calls():
+                    cb = F.bodies.get(c.callee)
+                    if cb is not None and cb.path.startswith(mod + "::") and cb.path not in seen:
+                        go(cb, d - 1)
+    go(body, depth)
+    return out
+
+
+def err_arm_passes(F, body, callee_suffix):
+    """Does every error that `body` hands on pass a call of `callee_suffix` first?  Recognises `body` = `arg.map_err(|e| { ..; e })`
+    (the closure calls it on every path); the explicit `if let Err(..)` / `match` forms are decided by the callers' own path rules.
+    -> True / False / None (None: not the map_err form)"""
+    d = body.unique_def(0)
+    if d is None or d[0] != "call" or d[2].callee.split("::")[-1] not in ("map_err", "or_else", "inspect_err"):
+        return None
+    c = d[2]
+    if strip_expr(body.expr(c.args[0]))[0] != "param":
+        return None
+    cl = strip_expr(body.expr(c.args[1]))
+    cb = F.bodies.get(cl[1]) if cl[0] == "agg" else None
+    if cb is None:
+        return False
+    pd = cb.postdominators().get(0, set()) | {0}
+    return any(sfx(x.callee, callee_suffix) and x.bb in pd for x in cb.calls())
+
+
+def immediate_line_emptied_by(F, body):
+    """Calls in `body` that leave the program on an empty immediate line: `set_and_goto_immediate_line(vec![])`, directly or through
+    a Program method that does exactly that on every path (`Program::end`)."""
+    out = []
+    for c in body.calls():
+        if sfx(c.callee, "Program::set_and_goto_immediate_line") and len(c.args) > 1 and "Vec::new" in show(body.expr(c.args[1])):
+            out.append(c)
+            continue
+        cb = F.bodies.get(c.callee)
+        if cb is not None and cb.path != body.path and cb.path.startswith("abasic_core::program::Program::"):
+            pd = cb.postdominators().get(0, set()) | {0}
+            if any(sfx(x.callee, "Program::set_and_goto_immediate_line") and x.bb in pd and len(x.args) > 1 and
+                   "Vec::new" in show(cb.expr(x.args[1])) for x in cb.calls()):
+                out.append(c)
+    return out
